@@ -168,7 +168,7 @@ def run(ctx):
     real_cases, cplx_cases, meta_r, meta_c = [], [], [], []
     nerr = 0
     for i in range(ncases):
-        cfg = G.make_case(rng)
+        cfg = G.make_case(rng, missing=True)
         # rank of the matrix that will be decomposed
         if cfg["cls"] == "ExtendedEOF":
             npca = cfg.get("n_pca_modes") or cfg["p"]
